@@ -42,6 +42,20 @@ func verifHarness_C19_renderers() {
 	}
 	payload := verifBytes("payload", 0, 3)
 	var obj any = verifPayload{N: "v"}
+	// the JSON renderers are also given other top-level values: whatever it is, the body is its encoding
+	vkind := 0
+	tag := "github.com/gookit/rux/pkg/render.verifPayload"
+	if kind == 4 || kind == 5 || kind == 7 {
+		vkind = verifChoice("value", 4)
+		switch vkind {
+		case 1:
+			obj, tag = []byte("hi"), "[]byte"
+		case 2:
+			obj, tag = json.RawMessage(`{"n":"v"}`), "encoding/json.RawMessage"
+		case 3:
+			obj, tag = map[string]string{"n": "v"}, "map[string]string"
+		}
+	}
 	// an unencodable value: natively a channel; symbolically the encoder stub is told to fail
 	unencodable := kind >= 4 && verifChoice("unencodable", 2) == 1
 	verifSetGhost("err.json.Encode", unencodable)
@@ -89,7 +103,7 @@ func verifHarness_C19_renderers() {
 		return
 	}
 	if verifSymbolic() {
-		e := "<json:" + "github.com/gookit/rux/pkg/render.verifPayload" + ">"
+		e := "<json:" + tag + ">"
 		switch kind {
 		case 4, 7:
 			verifAssert(string(w.body) == e, "JSON body is the encoding of the value")
@@ -100,14 +114,29 @@ func verifHarness_C19_renderers() {
 		}
 	} else {
 		var back verifPayload
+		// decodesBack: the JSON text decodes into a value of obj's type that equals obj
+		decodesBack := func(text []byte) bool {
+			switch vkind {
+			case 1:
+				var b []byte
+				return json.Unmarshal(text, &b) == nil && string(b) == "hi"
+			case 2:
+				var m map[string]string
+				return json.Unmarshal(text, &m) == nil && len(m) == 1 && m["n"] == "v"
+			case 3:
+				var m map[string]string
+				return json.Unmarshal(text, &m) == nil && len(m) == 1 && m["n"] == "v"
+			}
+			return json.Unmarshal(text, &back) == nil && back.N == "v"
+		}
 		switch kind {
 		case 4, 7:
-			verifAssert(json.Unmarshal(w.body, &back) == nil && back.N == "v", "JSON body decodes back to the value")
+			verifAssert(decodesBack(w.body), "JSON body decodes back to the value")
 		case 5:
 			s := string(w.body)
 			verifAssert(strings.HasPrefix(s, cb+"(") && strings.HasSuffix(s, ");"), "JSONP wraps the encoding as callback(...);")
 			if strings.HasPrefix(s, cb+"(") && strings.HasSuffix(s, ");") {
-				verifAssert(json.Unmarshal([]byte(s[len(cb)+1:len(s)-2]), &back) == nil && back.N == "v", "JSONP payload decodes back to the value")
+				verifAssert(decodesBack([]byte(s[len(cb)+1:len(s)-2])), "JSONP payload decodes back to the value")
 			}
 		case 6:
 			verifAssert(strings.HasPrefix(string(w.body), xml.Header), "XML body starts with the XML header")
@@ -121,7 +150,7 @@ var verifAcceptTokens = []string{"application/json", "text/html", "text/plain", 
 
 // Content negotiation by Accept picks the first supported type listed.
 func verifHarness_C19_auto() {
-	n := verifChoice("ntypes", 4) // 0..3 listed types
+	n := verifChoice("ntypes", verifParam("T")+1) // 0..T listed types
 	var toks []string
 	for i := 0; i < n; i++ {
 		toks = append(toks, verifAcceptTokens[verifChoice("tok", len(verifAcceptTokens))])
